@@ -39,6 +39,7 @@ type mdrv struct {
 	sock     string
 	ack      string
 	slow     bool
+	inCb     int64 // listener invocations in progress
 	late     string
 	curL     int
 	sentOK   int64 // sends that returned nil (a line went to the out helper)
@@ -154,6 +155,8 @@ func (m *mdrv) Call(fn string, msg int, o pr.Opts) (ret string) {
 		}
 		stop, err := midi.ListenTo(m.in, func(msg midi.Message, ts int32) {
 			_, late := m.stoppedL.Load(id)
+			atomic.AddInt64(&m.inCb, 1)
+			defer atomic.AddInt64(&m.inCb, -1)
 			k := pr.MsgID(msg)
 			if m.slow {
 				time.Sleep(300 * time.Microsecond) // widen the window in which stop() can race with a callback in flight
@@ -201,12 +204,17 @@ func (m *mdrv) burstStop(q []int) string {
 			ret = errStr(err)
 		}
 	}
+	running := int64(0)
 	if m.stop != nil {
 		m.stop()
+		running = atomic.LoadInt64(&m.inCb) // read immediately after stop() returned
 		m.stoppedL.Store(m.curL, true)
 	}
 	m.settle()
 	m.slow = false
+	if running > 0 {
+		panic("stop function returned while its listener was still executing a callback")
+	}
 	m.mu.Lock()
 	late := m.late
 	m.late = ""
